@@ -9,6 +9,7 @@ import (
 	"net/url"
 	"os"
 	"path/filepath"
+	"sort"
 	"strings"
 	"sync"
 
@@ -59,6 +60,12 @@ func (h *rawHTTP) ServeHTTP(w http.ResponseWriter, r *http.Request) {
 
 // casync protocol peer answering every request with the registered raw bytes
 func rawProtocolStore(objs map[desync.ChunkID][]byte) (*desync.Protocol, func()) {
+	return rawProtocolStoreLabelled(&sync.Mutex{}, objs, nil)
+}
+
+// label: the ID the peer puts into its reply instead of the requested one (a peer that labels
+// what it sends by content, or a stale reply on a reused session)
+func rawProtocolStoreLabelled(mu *sync.Mutex, objs map[desync.ChunkID][]byte, label map[desync.ChunkID]desync.ChunkID) (*desync.Protocol, func()) {
 	cr, sw := io.Pipe() // server -> client
 	sr, cw := io.Pipe() // client -> server
 	server := desync.NewProtocol(sr, sw)
@@ -76,8 +83,16 @@ func rawProtocolStore(objs map[desync.ChunkID][]byte) (*desync.Protocol, func())
 			}
 			var id desync.ChunkID
 			copy(id[:], m.Body[8:40])
-			if raw, ok := objs[id]; ok {
-				server.SendProtocolChunk(id, desync.CaProtocolChunkCompressed, raw)
+			mu.Lock()
+			raw, ok := objs[id]
+			as, relabel := label[id]
+			mu.Unlock()
+			if ok {
+				if relabel {
+					server.SendProtocolChunk(as, desync.CaProtocolChunkCompressed, raw)
+				} else {
+					server.SendProtocolChunk(id, desync.CaProtocolChunkCompressed, raw)
+				}
 			} else {
 				server.SendMissing(id)
 			}
@@ -225,7 +240,11 @@ func runC03(cfg Config) {
 					backends := map[string]desync.Store{"local": ls, "http": hs}
 					var closeProto func()
 					if comp && !skip { // the protocol always carries compressed chunks and always verifies
-						p, cl := rawProtocolStore(map[desync.ChunkID][]byte{id: raw})
+						var label map[desync.ChunkID]desync.ChunkID
+						if cname == "other-object" { // a self-consistent reply for a different chunk
+							label = map[desync.ChunkID]desync.ChunkID{id: desync.Digest.Sum(otherData)}
+						}
+						p, cl := rawProtocolStoreLabelled(&sync.Mutex{}, map[desync.ChunkID][]byte{id: raw}, label)
 						backends["proto"] = protoStore{p}
 						closeProto = cl
 					}
@@ -283,6 +302,98 @@ func runC03(cfg Config) {
 			}
 		}
 		setDigest("sha512")
+	}
+
+	// histories on one long-lived store instance: the stored object of an ID changes between reads
+	// (repaired, damaged, replaced by another chunk's object); every read is judged on what is
+	// stored at that moment
+	for it := 0; it < cfg.N(150, 3000); it++ {
+		comp := rng.Intn(2) == 0
+		data := randBytes(rng, 1+rng.Intn(200))
+		if rng.Intn(3) == 0 {
+			data = make([]byte, 1+rng.Intn(300))
+		}
+		otherData := randBytes(rng, 1+rng.Intn(200))
+		id := desync.Digest.Sum(data)
+		good, other := data, otherData
+		if comp {
+			good, _ = desync.Compress(data)
+			other, _ = desync.Compress(otherData)
+		}
+		cors := corruptions(rng, good, other)
+		var names []string
+		for k := range cors {
+			names = append(names, k)
+		}
+		sort.Strings(names)
+		opt := desync.StoreOptions{Uncompressed: !comp, ErrorRetry: 0}
+		dir := filepath.Join(cfg.Work, "hstore")
+		os.RemoveAll(dir)
+		os.MkdirAll(dir, 0755)
+		ls, _ := desync.NewLocalStore(dir, opt)
+		ext := ""
+		if comp {
+			ext = ".cacnk"
+		}
+		sid := hx(id[:])
+		os.MkdirAll(filepath.Join(dir, sid[:4]), 0755)
+		u, _ := url.Parse(ts.URL)
+		hs, _ := desync.NewRemoteHTTPStore(u, opt)
+		pmu := &sync.Mutex{}
+		pobjs := map[desync.ChunkID][]byte{}
+		plabel := map[desync.ChunkID]desync.ChunkID{}
+		backends := map[string]desync.Store{"local": ls, "http": hs, "local/dedup": desync.NewDedupQueue(ls), "local/swap": desync.NewSwapStore(ls),
+			"local/router": desync.NewStoreRouter(emptyStore{}, ls)}
+		var closeProto func()
+		if comp {
+			p, cl := rawProtocolStoreLabelled(pmu, pobjs, plabel)
+			backends["proto"] = protoStore{p}
+			closeProto = cl
+		}
+		hist := ""
+		for step := 0; step < 2+rng.Intn(5); step++ {
+			cname := names[rng.Intn(len(names))]
+			if step == 0 && rng.Intn(2) == 0 {
+				cname = "intact" // the typical history: read fine once, damaged later
+			}
+			raw := cors[cname]
+			hist += cname + ">"
+			os.WriteFile(filepath.Join(dir, sid[:4], sid+ext), raw, 0644)
+			hsrv.mu.Lock()
+			hsrv.objs = map[string][]byte{"/" + sid[:4] + "/" + sid + ext: raw}
+			hsrv.mu.Unlock()
+			pmu.Lock()
+			pobjs[id] = raw
+			delete(plabel, id)
+			if cname == "other-object" {
+				plabel[id] = desync.Digest.Sum(otherData)
+			}
+			pmu.Unlock()
+			dec := "err"
+			if d, err := desync.Decompress(nil, raw); err == nil {
+				dec = "ok:" + hx(d)
+			}
+			if !comp {
+				dec = "ok:" + hx(raw)
+			}
+			line := fmt.Sprintf("chunk.fromstorage alg=sha512 id=%s raw=%s dec=%s comp=%d skip=0", hx(id[:]), hx(raw), dec, b2i(comp))
+			want := m.Ask(line)
+			for bname, st := range backends {
+				got := getResult(st, id)
+				caseLine := line + " backend=" + bname + " history=" + hist
+				rep.Count(caseLine, step > 0, "history", "backend:"+bname+"/history")
+				if m.cmd != nil && got != want {
+					rep.Disagree(Disagreement{Kind: "correspondence", Case: clip(caseLine, 100000), Model: clip(want, 300), Impl: clip(got, 300),
+						What: "model and implementation differ on a long-lived store after the history " + hist})
+				}
+				if strings.HasPrefix(got, "ok ") && got != "ok nodata" && desync.Digest.Sum(unhx(got[3:])) != id {
+					monitor("delivered chunk data does not hash to the requested ID after the history "+hist+" ("+bname+")", caseLine, got)
+				}
+			}
+		}
+		if closeProto != nil {
+			closeProto()
+		}
 	}
 	rep.Write(cfg.Out)
 }
